@@ -183,8 +183,10 @@ def stage_ranges(steps):
 # ==================================================================================================
 # Recipe API
 
-def to_recipe(decls, steps, only_names=None, declare=()):
-    """Build a Recipe for `steps` declaring the objects it uses (+ `declare`).  -> (recipe, handles)"""
+def to_recipe(decls, steps, only_names=None, declare=(), hostile=None, subs=None):
+    """Build a Recipe for `steps` declaring the objects it uses (+ `declare`).  -> (recipe, handles)
+    `hostile`: an rng; between steps, calls that the recipe must refuse are attempted (and their exceptions caught, as
+    a user at a prompt would) - a refused call must leave nothing behind, which the downstream comparisons decide."""
     pp = PP()
     objs = make_objs(decls)
     r = pp.Recipe()
@@ -196,9 +198,83 @@ def to_recipe(decls, steps, only_names=None, declare=()):
     if declared:
         r.uses(*[objs[n] for n in declared])
     handles = {n: objs[n] for n in declared}
+    open_stage, closed = None, []
     for s in steps:
         add_step(r, handles, s)
+        if s['op'] == 'start_stage':
+            open_stage = s['name']
+        elif s['op'] == 'end_stage':
+            closed.append(s['name'])
+            open_stage = None
+        if hostile is not None and hostile.random() < 0.45:
+            refused_attempt(r, handles, hostile, open_stage, closed, subs)
     return r, handles
+
+
+HOSTILE_KINDS = ['stage_open', 'stage_dup', 'end_wrong', 'dup_container', 'dup_uses', 'dup_solution', 'dup_solution_from',
+                 'dup_solution_from_default', 'undeclared_src', 'undeclared_dst', 'undeclared_fill', 'undeclared_remove',
+                 'undeclared_dilute']
+
+
+def refused_attempt(r, handles, rng, open_stage, closed, subs):
+    """One call that C16 says the recipe refuses, made with otherwise well-formed arguments so that it gets as far into
+    the declaring method as possible before the refusal."""
+    pp = PP()
+    liqs = [x for x in subs if x.is_liquid()]
+    nonenz = [x for x in subs if not x.is_enzyme()]
+    conts = [n for n, o in handles.items() if isinstance(o, pp.Container)]
+    kind = rng.choice(HOSTILE_KINDS)
+    liq = rng.choice(liqs)
+    solute = rng.choice([x for x in nonenz if x != liq] or nonenz)
+    stray = lambda: pp.Container('zz_undeclared', initial_contents=[(liq, '1 mL'), (solute, '1 mg')])   # noqa
+    taken = rng.choice(sorted(handles)) if handles else None
+    call = None
+    if kind == 'stage_open' and open_stage is not None:
+        call = lambda: r.start_stage('zz_other_stage')   # noqa
+    elif kind == 'stage_dup' and (closed or open_stage):
+        nm = rng.choice(closed + ([open_stage] if open_stage else []))
+        call = lambda: r.start_stage(nm)   # noqa
+    elif kind == 'end_wrong':
+        call = lambda: r.end_stage('zz_no_such_stage')   # noqa
+    elif kind == 'dup_container' and taken:
+        call = lambda: r.create_container(taken, initial_contents=[(liq, '1 mL')])   # noqa
+    elif kind == 'dup_uses' and taken:
+        call = lambda: r.uses(pp.Container(taken))   # noqa
+    elif kind == 'dup_solution' and taken and solute != liq:
+        call = lambda: r.create_solution(solute, liq, name=taken, concentration='0.01 M', total_quantity='1 mL')   # noqa
+    elif kind == 'dup_solution_from' and taken and conts and solute != liq:
+        src = handles[rng.choice(conts)]
+        call = lambda: r.create_solution_from(src, solute, '0.001 M', liq, '1 mL', name=taken)   # noqa
+    elif kind == 'dup_solution_from_default' and conts and solute != liq:
+        # the default name of the product collides with a declared object of that name
+        src = handles[rng.choice(conts)]
+        dflt = f'solution of {solute.name} in {liq.name}'
+        if dflt in handles:
+            call = lambda: r.create_solution_from(src, solute, '0.001 M', liq, '1 mL')   # noqa
+    elif kind == 'undeclared_src' and conts:
+        dst = handles[rng.choice(conts)]
+        call = lambda: r.transfer(stray(), dst, '1 uL')   # noqa
+    elif kind == 'undeclared_dst' and conts:
+        src = handles[rng.choice(conts)]
+        call = lambda: r.transfer(src, stray(), '1 uL')   # noqa
+    elif kind == 'undeclared_fill':
+        call = lambda: r.fill_to(stray(), liq, '2 mL')   # noqa
+    elif kind == 'undeclared_remove':
+        call = lambda: r.remove(stray())   # noqa
+    elif kind == 'undeclared_dilute' and solute != liq:
+        call = lambda: r.dilute(stray(), solute, '0.0001 M', liq)   # noqa
+    if call is None:
+        return
+    M.count('HOSTILE.attempts')
+    M.bucket(f'C16/refused_call/{kind}')
+    try:
+        call()
+    except (MonitorBug, InjectedFault):
+        raise
+    except Exception:   # noqa
+        M.count('HOSTILE.refused')
+        return
+    M.violate(['C16'], 'LIFE', f'C16:call_that_must_be_refused_was_accepted:{kind}', {'kind': kind})
 
 
 def add_step(r, handles, s):
@@ -589,13 +665,33 @@ def run_recipe_case(rng, case, idx, focus=None):
     # API that step is added after a first, refused, bake - which must leave the recipe (steps, results, open stage)
     # as it was, so that everything downstream equals the program with that step in place
     forgot = (idx % 4 == 0) and prog['infeasible_at'] is None
+    fname = 'zz_forgot'
     if forgot:
-        prog['decls'] = prog['decls'] + [{'type': 'container', 'name': 'zz_forgot', 'max': None,
+        # half of the time the forgotten container is named after a substance that the steps mention as an operand
+        # (a bottle called 'water' in a recipe that fills with water): names of substances are not names of objects
+        opnames = set()
+        for s_ in prog['steps']:
+            for key in ('solvent', 'solute', 'what'):
+                v = s_.get(key)
+                if hasattr(v, '_type'):
+                    opnames.add(v.name)
+            for v in (s_.get('solutes') or []) if isinstance(s_.get('solutes'), (list, tuple)) else [s_.get('solutes')]:
+                if hasattr(v, '_type'):
+                    opnames.add(v.name)
+        opnames -= {d_['name'] for d_ in prog['decls']} | {creates(s_) for s_ in prog['steps'] if creates(s_)}
+        if opnames and rng.random() < 0.5:
+            fname = sorted(opnames)[0]
+            M.bucket('C16/forgotten_object_named_like_operand_substance')
+        prog['decls'] = prog['decls'] + [{'type': 'container', 'name': fname, 'max': None,
                                           'init': [(liquids(prog['subs'])[0], '1 mL'), (prog['subs'][0], '2 U' if prog['subs'][0].is_enzyme() else '3 mg')]}]
-        prog['steps'] = prog['steps'] + [{'op': 'remove', 'dst': ['zz_forgot', None], 'what': R.SOLID}]
+        prog['steps'] = prog['steps'] + [{'op': 'remove', 'dst': [fname, None], 'what': R.SOLID}]
     rs = real_steps(prog['steps'])
     pdesc = describe_program(prog)
     n = len(rs)
+    # refused calls between the steps (every third program): the recipe must come out as if they had not been made
+    import random as _random
+    hostile = _random.Random(rng.random()) if idx % 3 == 1 else None
+    pdesc['hostile'] = hostile is not None
     # ---------------- eager fold (monitors on: the direct operations are watched too)
     eager_states = []
     eager_exc = None
@@ -620,7 +716,7 @@ def run_recipe_case(rng, case, idx, focus=None):
     with M.active(case):
         try:
             if forgot and eager_exc is None:
-                r, handles = to_recipe(prog['decls'], prog['steps'][:-1], declare=['zz_forgot'])
+                r, handles = to_recipe(prog['decls'], prog['steps'][:-1], declare=[fname], hostile=hostile, subs=prog['subs'])
                 M.count('C08.rebake')
                 M.bucket('C08/rebake_after_refused_bake')
                 try:
@@ -630,7 +726,7 @@ def run_recipe_case(rng, case, idx, focus=None):
                     pass
                 add_step(r, handles, prog['steps'][-1])
             else:
-                r, handles = to_recipe(prog['decls'], prog['steps'])
+                r, handles = to_recipe(prog['decls'], prog['steps'], hostile=hostile, subs=prog['subs'])
             placeholders = {nme: F.fingerprint(o) for nme, o in handles.items()}
             pre_bake = {nme: F.fingerprint(o) for nme, o in handles.items()}
             res = r.bake()
